@@ -52,9 +52,38 @@ def execute(world, prop, config, ops):
         raise
     except RecursionError as e:
         raise HarnessError(f"RecursionError outside a DUT phase: {e}") from e
+    except Exception as e:
+        # An exception that was *raised inside the code under test* (not a refusal, not at
+        # elaboration - those are handled by the worlds) in response to the legal use this world
+        # makes of it: the component failed with an internal error under this property's workload.
+        # Exceptions raised in harness code stay harness errors.
+        where = _raised_in_repo(e)
+        if where is None:
+            raise
+        res["status"] = "violation"
+        res["violation"] = Violation(prop, "code-under-test-raised-internal-error", stats.cycles +
+                                     stats.steps, f"{type(e).__name__}: {str(e)[:160]} (in {where})",
+                                     key=f"dut-exception:{type(e).__name__}:{where}").as_dict()
     res["stats"] = stats
     res["digest"] = hist.hex()
     return res
+
+
+def _raised_in_repo(exc):
+    """'file:function' of the innermost frame inside the repository under test if the exception
+    was raised there, else None."""
+    root = os.path.realpath(repo_path()) + os.sep
+    tb = exc.__traceback__
+    last = None
+    while tb is not None:
+        last = tb
+        tb = tb.tb_next
+    if last is None:
+        return None
+    fn = os.path.realpath(last.tb_frame.f_code.co_filename)
+    if fn.startswith(root):
+        return f"{os.path.relpath(fn, root)}:{last.tb_frame.f_code.co_name}"
+    return None
 
 
 def one_run(world, prop, verif_seed, i, keep):
